@@ -272,6 +272,39 @@ def run_store_case(ctx, case, env, replies):
                 return f'get_chunk{sl} raised {type(e).__name__}: {e}'
             if not zoo.same_array(got, x[src] if x.ndim else x):
                 return f'get_chunk{sl} differs from what was stored'
+        # ---- memory layout of the chunk handed to put_chunk is irrelevant: a Fortran-ordered (transposed) and a
+        #      strided copy of the first chunk read back as the same elements (NPY also with direct_write)
+        if x.ndim >= 2 and x.size and case['backend'] != 'dict':
+            sl0 = slices_all[0]
+            py0 = tuple(slice(a, b) for a, b in sl0)
+            src0 = tuple(slice(a - (offset[i] if offset else 0), b - (offset[i] if offset else 0))
+                         for i, (a, b) in enumerate(sl0))
+            want0 = np.ascontiguousarray(x[src0])
+            big = np.zeros(tuple(2 * n for n in want0.shape), dtype=x.dtype)
+            big[tuple(slice(None, None, 2) for _ in want0.shape)] = want0
+            layouts = [('Fortran-ordered', np.asfortranarray(want0)),
+                       ('strided', big[tuple(slice(None, None, 2) for _ in want0.shape)])]
+            stores = [('', store)]
+            if case['backend'] == 'npy':
+                try:
+                    stores.append((' (direct_write)', NpyFileChunkStore(env.root, direct_write=True)))
+                except Exception:   # noqa: BLE001  (O_DIRECT unsupported on this file system)
+                    ctx.tag('direct-write-unavailable')
+            for sfx, st in stores:
+                for lname, arr in layouts:
+                    name2 = f'{name}_{lname[:3].lower()}{"d" if sfx else ""}'
+                    try:
+                        if case['backend'] != 'dict':
+                            st.create_array(name2)
+                        st.put_chunk(name2, py0, arr)
+                        got = store.get_chunk(name2, py0, dtype)
+                    except Exception as e:   # noqa: BLE001
+                        return f'put_chunk / get_chunk of a {lname} chunk{sfx} raised {type(e).__name__}: {str(e)[:120]}'
+                    if not zoo.same_array(got, want0):
+                        return (f'a {lname} chunk{sfx} of shape {want0.shape} does not read back element for element '
+                                f'(first elements {np.asarray(got).ravel()[:4].tolist()} vs '
+                                f'{want0.ravel()[:4].tolist()})')
+            ctx.tag('chunk-layouts')
         # ---- lazily, whole array (with offset) or with index
         index = tuple(slice(*s) for s in case['index'])
         del CALLS[:]
